@@ -169,7 +169,9 @@ func c11Run(c *core.Ctx) *core.Result {
 				return r
 			}
 			inc = append(append([]string{}, lv.Inc...), tg...)
-			if len(inc) == 0 {
+			if len(inc) == 0 || tg == nil {
+				// (tg == nil: a follow path reaches the root, everything is
+				// needed whatever the caller's own include list says)
 				inc = nil
 			}
 		}
